@@ -17,6 +17,7 @@ from ..evidence import finish
 from . import c25
 
 PID = "C26"
+os.environ.setdefault("JAVA_TOOL_OPTIONS", "-Xss64m")      # TLC evaluates the recursive tree operators of BTreeSeq on deep stacks
 
 def shape_of(t):
     """TLC value [k |-> <<..>>, c |-> <<..>>] (parsed) -> the driver's shape text"""
@@ -192,12 +193,13 @@ def random_histories(res, wd, drv, tier):
         if not j.complete or not j.header.startswith("seq d3"):
             continue
         ops = [e for e in j.events if e["e"] in ("ins", "erase")]
-        if len(events) + len(ops) > (6000 if tier == "quick" else 60000):
+        if len(events) + len(ops) > (4000 if tier == "quick" else 60000):
             break
         events.append({"op": "reset"})
-        for e, sh in zip(ops, j.shapes):
-            events.append({"op": "ins" if e["e"] == "ins" else "del", "key": e["k"],
-                           "res": (1 if e["ok"] else 0) if e["e"] == "ins" else e["n"], "tree": parse_shape(sh)})
+        for n, (e, sh) in enumerate(zip(ops, j.shapes)):
+            chk = n % 7 == 6 or n == len(ops) - 1 or len(sh) < 60
+            events.append({"op": "ins" if e["e"] == "ins" else "del", "key": e["k"], "chk": chk,
+                           "res": (1 if e["ok"] else 0) if e["e"] == "ins" else e["n"], "tree": parse_shape(sh) if chk else []})
     if events:
         t0 = time.time()
         acc, consumed, r = tracecheck.validate("MC_BTreeSeqTrace", events, wd, "MCT_seqshape", constants="CONSTANT M = 3\nCONSTANT Keys = {}",
